@@ -411,6 +411,18 @@ class Values:
             return None
         m = f.module
         v = m.assigns.get(e.id)
+        name = e.id
+        hops = 0
+        while v is None and name in m.imports and hops < 4:
+            # `from ..internals.constants import NAME`: the one assignment of NAME in that module of the package
+            target = m.imports[name]
+            modname, _, name = target.rpartition(".")
+            m2 = next((x for x in self.an.prog.modules.values() if x.name == modname or modname.endswith("." + x.name) or x.name.endswith("." + modname)), None)
+            if m2 is None:
+                return None
+            m, hops = m2, hops + 1
+            v = m.assigns.get(name)
+            e = ast.Name(id=name, ctx=ast.Load())
         if v is None:
             return None
         n_assign = sum(1 for st in ast.walk(m.tree) if isinstance(st, (ast.Assign, ast.AnnAssign, ast.AugAssign))
